@@ -185,6 +185,7 @@ type overlapFinding struct {
 	Rank    int64       `json:"-"`
 	Cfg     mfCfg       `json:"config"`
 	Overlap bool        `json:"overlap"` // marks the replay file
+	History bool        `json:"after_history"`
 	Config  string      `json:"config_dsl"`
 	IA      int         `json:"outer_index"`
 	IB      int         `json:"nested_index"`
@@ -200,7 +201,9 @@ func (f overlapFinding) message() string {
 		f.Cfg, f.A, f.B, f.ExpectA.Status, f.ExpectA.Allow, f.ExpectA.Route, f.ExpectB.Status, f.ExpectB.Allow, f.ExpectB.Route, f.Got.A, f.Got.Nested, f.Got.Stored)
 }
 
-func overlapRunOne(c mfCfg, ia, ib int, ip interp, slot int) (string, expectation, expectation, overlapObs, error) {
+// overlapRunOne boots the configuration and serves the pair (ia, ib); with history set, everything the
+// enumeration served on that boot before the pair (the pair walk, then the pairs in order) is served first.
+func overlapRunOne(c mfCfg, ia, ib int, history bool, ip interp, slot int) (string, expectation, expectation, overlapObs, error) {
 	b, err := boot(mfDSL(c, bootSeq.Add(1)), slot)
 	if err != nil {
 		return "", expectation{}, expectation{}, overlapObs{}, err
@@ -208,7 +211,25 @@ func overlapRunOne(c mfCfg, ia, ib int, ip interp, slot int) (string, expectatio
 	defer b.a.Shutdown()
 	reqs := mfRequests(c)
 	routes := mfRoutes(c)
-	o, err := serveOverlap(b, reqs[ia].raw(), reqs[ib].raw(), new([2]*bufio.Reader))
+	rd := new([2]*bufio.Reader)
+	if history {
+		for _, qi := range pairWalk(len(reqs)) {
+			if _, err := b.serveRaw(reqs[qi].raw(), "10.1.2.3:1"); err != nil {
+				return "", expectation{}, expectation{}, overlapObs{}, err
+			}
+		}
+		for a := 0; a <= ia; a++ {
+			for bb := 0; bb < len(reqs); bb++ {
+				if a == ia && bb >= ib {
+					break
+				}
+				if _, err := serveOverlap(b, reqs[a].raw(), reqs[bb].raw(), rd); err != nil {
+					return "", expectation{}, expectation{}, overlapObs{}, err
+				}
+			}
+		}
+	}
+	o, err := serveOverlap(b, reqs[ia].raw(), reqs[ib].raw(), rd)
 	if err != nil {
 		return "", expectation{}, expectation{}, o, err
 	}
@@ -267,8 +288,14 @@ func reportOverlap(r *runner.Run, finds map[string]overlapFinding, ip interp) {
 	sort.Strings(keys)
 	for _, k := range keys {
 		f := finds[k]
-		r.Violation("methfam:overlap:"+k, f.message(), f, func() bool {
-			v, _, _, _, err := overlapRunOne(f.Cfg, f.IA, f.IB, ip, 913)
+		// the pair alone on a fresh boot, else together with everything served before it on that boot
+		key := "methfam:overlap:" + k
+		if v, _, _, _, err := overlapRunOne(f.Cfg, f.IA, f.IB, false, ip, 913); err != nil || v == "" {
+			f.History = true
+			key = "methfam:overlap-after-history:" + k
+		}
+		r.Violation(key, f.message(), f, func() bool {
+			v, _, _, _, err := overlapRunOne(f.Cfg, f.IA, f.IB, f.History, ip, 913)
 			return err == nil && v != ""
 		})
 	}
@@ -281,6 +308,7 @@ func replayOverlap(r *runner.Run, data []byte, ip interp) (ok bool) {
 		Replay struct {
 			Cfg     mfCfg `json:"config"`
 			Overlap bool  `json:"overlap"`
+			History bool  `json:"after_history"`
 			IA      int   `json:"outer_index"`
 			IB      int   `json:"nested_index"`
 		} `json:"replay"`
@@ -299,7 +327,7 @@ func replayOverlap(r *runner.Run, data []byte, ip interp) (ok bool) {
 		r.Infra("replay: request index out of range")
 		return true
 	}
-	v, eA, eB, o, err := overlapRunOne(c, ia, ib, ip, 914)
+	v, eA, eB, o, err := overlapRunOne(c, ia, ib, doc.Replay.History, ip, 914)
 	if err != nil {
 		r.Infra("replay: %v", err)
 		return true
@@ -311,8 +339,12 @@ func replayOverlap(r *runner.Run, data []byte, ip interp) (ok bool) {
 	r.NotExhaustive("replay of one case")
 	r.Set("rule", "replay of one recorded case")
 	if v != "" {
-		f := overlapFinding{Cfg: c, Overlap: true, Config: mfDSL(c, 0), IA: ia, IB: ib, A: reqs[ia], B: reqs[ib], ExpectA: eA, ExpectB: eB, Got: o}
-		r.Violation("methfam:overlap:"+v, f.message(), f, nil)
+		f := overlapFinding{Cfg: c, Overlap: true, History: doc.Replay.History, Config: mfDSL(c, 0), IA: ia, IB: ib, A: reqs[ia], B: reqs[ib], ExpectA: eA, ExpectB: eB, Got: o}
+		key := "methfam:overlap:" + v
+		if doc.Replay.History {
+			key = "methfam:overlap-after-history:" + v
+		}
+		r.Violation(key, f.message(), f, nil)
 	}
 	return true
 }
